@@ -695,7 +695,15 @@ func (s *scanner) stateAnyAnnotationStart(c byte) (st state, err error) {
 }
 
 func (s *scanner) stateInlineAnnotation(c byte) (state, error) {
-	if bytes.IsBlank(c) {
+	if bytes.IsNewLine(c) {
+		// An empty annotation ends at the end of its line.
+		s.found(lexeme.InlineAnnotationEnd)
+		s.found(lexeme.NewLine)
+		s.step = s.returnToStep.Pop()
+		s.annotation = false
+		return scanSkip, nil
+	}
+	if bytes.IsSpace(c) {
 		return scanSkip, nil
 	}
 
